@@ -260,9 +260,10 @@ func govcC07Short(s string) string {
 
 func TestGovcNestingReplay(t *testing.T) {
 	evals, nontrivial, partial := 0, 0, 0
+	cellCases, cellShapes, cellRetained := 0, 0, 0
 	defer func() {
 		fmt.Printf("GOVC-CASES evaluations=%d distinct_nontrivial=%d rule=%s\n", evals, nontrivial,
-			fmt.Sprintf("23 nestable structures (ul/ol/li/blockquote/pre, 1-3 levels, inline font/b/a/javascript: children) x items 1..4 x leaf mode {4 words, 14 words, alternating prose/link-only leaves starting with prose, same starting with a link} x position {between,first,last} with a unique marker word per leaf, plus data tables r 2..6 x c 2..4 x position with a unique token per cell; non-trivial = at least one marker/token of the structure is in Result.Node (in %d of them only a part of the leaves was retained)", partial))
+			fmt.Sprintf("23 nestable structures (ul/ol/li/blockquote/pre, 1-3 levels, inline font/b/a/javascript: children) x items 1..4 x leaf mode {4 words, 14 words, alternating prose/link-only leaves starting with prose, same starting with a link} x position {between,first,last} with a unique marker word per leaf, plus data tables r 2..6 x c 2..4 x position with a unique token per cell; non-trivial = at least one marker/token of the structure is in Result.Node (in %d of them only a part of the leaves was retained); plus %d data tables with special cells: %d cell content shapes (empty, white space, nbsp, comment, hidden span/div/aria-hidden, script, style, img, br, empty inline/block/anchor wrappers, form control, svg, combinations, hidden cell) x 10 arrangements (one cell in the middle / first / last, a header cell, a footer cell, a whole spacer row in the middle / at the end, a whole column, all cells but the first column, every second cell) x 4 table structures (caption+thead+tbody+tfoot, caption and th row without sections, rowspan/colspan, row headers) between paragraphs, spacer rows also first and last in the article; per retained table the numbers of table/caption/thead/tbody/tfoot/tr/th/td elements, the number of cells of every row and the (row, cell index) position of every visible token must equal those of the source (hidden elements themselves may be dropped); non-trivial = the table is in Result.Node (%d of them)", partial, cellCases, cellShapes, cellRetained))
 	}()
 	positions := []string{"between", "first", "last"}
 
@@ -395,6 +396,335 @@ func TestGovcNestingReplay(t *testing.T) {
 			}
 		}
 	}
+
+	// ---- data tables with special cells (appended; the keys above are unchanged) ----
+	// "A data table that is retained is retained with all of its rows and cells": cells (and whole rows of cells)
+	// that have no rendered content of their own - empty, only white space, only a comment, only a hidden element,
+	// only a script, only an image or a line break, only empty wrappers - are cells all the same; if one is lost,
+	// the other cells of its row move to another column.
+	shapes := govcC07CellShapes()
+	cellShapes = len(shapes)
+	for _, structure := range []string{"sections", "flat", "spans", "rowhead"} {
+		for _, arr := range govcC07Arrangements {
+			for _, sh := range shapes {
+				poss := []string{"between"}
+				if arr.name == "row" {
+					poss = positions
+				}
+				for _, pos := range poss {
+					key := fmt.Sprintf("tcell/%s/%s/%s", structure, arr.name, sh.name)
+					if pos != "between" {
+						key += "/" + pos
+					}
+					table, tokens := govcC07CellTable(structure, arr.special, sh)
+					src := govcC07Doc(pos, table)
+					srcDoc, err := dom.Parse(strings.NewReader(src))
+					if err != nil {
+						t.Fatalf("source does not parse: %v", err)
+					}
+					res, err := ApplyForReader(strings.NewReader(src), nil)
+					evals++
+					cellCases++
+					if err != nil {
+						t.Errorf("GOVC-FAIL %s :: table cell case returned error %v", key, err)
+						continue
+					}
+					srcTable := dom.QuerySelector(srcDoc, "table")
+					outTable := dom.QuerySelector(res.Node, "table")
+					if srcTable == nil {
+						t.Fatalf("generator bug: no table in the source of %s", key)
+					}
+					if outTable == nil {
+						continue // the table is not retained
+					}
+					nontrivial++
+					cellRetained++
+					for _, msg := range govcC07CompareTables(srcTable, outTable, tokens) {
+						t.Errorf("GOVC-FAIL %s/%s; source table %s; retained table %s", key, msg, govcC07Short(table), govcC07Short(dom.OuterHTML(outTable)))
+					}
+				}
+			}
+		}
+	}
+}
+
+type govcC07CellShape struct {
+	name     string
+	cellAttr string // extra attributes of the special cell itself
+	content  string // content of the special cell; %TOK% is replaced by a fresh token
+}
+
+func govcC07CellShapes() []govcC07CellShape {
+	return []govcC07CellShape{
+		{"empty", "", ""},
+		{"space", "", " "},
+		{"whitespace", "", " \n\t "},
+		{"nbsp", "", "&nbsp;"},
+		{"comment", "", "<!-- not played -->"},
+		{"comment-spaced", "", " <!-- spacer --> \n"},
+		{"two-comments", "", "<!-- a --><!-- b -->"},
+		{"hidden-span", "", "<span style=\"display:none\">%TOK%</span>"},
+		{"hidden-span-important", "", "<span style=\"color:red; display: none !important\">%TOK%</span>"},
+		{"hidden-attr-div", "", "<div hidden>%TOK%</div>"},
+		{"aria-hidden-span", "", "<span aria-hidden=\"true\">%TOK%</span>"},
+		{"visibility-hidden", "", "<span style=\"visibility:hidden\">%TOK%</span>"},
+		{"hidden-empty", "", "<span hidden></span>"},
+		{"script", "", "<script>var %TOK% = 1;</script>"},
+		{"style", "", "<style>.%TOK% { color: red }</style>"},
+		{"comment-and-hidden", "", "<!-- c --><span style=\"display:none\">%TOK%</span><!-- d -->"},
+		{"img", "", "<img src=\"/img/flag.png\" width=\"16\" height=\"11\" alt=\"\">"},
+		{"br", "", "<br>"},
+		{"empty-span", "", "<span></span>"},
+		{"empty-nested-inline", "", "<span class=\"x\"><b><i></i></b></span>"},
+		{"empty-div", "", "<div></div>"},
+		{"empty-p", "", "<p></p>"},
+		{"empty-anchor", "", "<a href=\"/x\" name=\"n1\"></a>"},
+		{"inline-around-comment", "", "<span><!-- n/a --></span>"},
+		{"inline-around-hidden", "", "<b><span style=\"display:none\">%TOK%</span></b>"},
+		{"checkbox", "", "<input type=\"checkbox\" disabled>"},
+		{"svg", "", "<svg width=\"10\" height=\"10\"><circle cx=\"5\" cy=\"5\" r=\"4\"></circle></svg>"},
+		{"attrs-only", " class=\"spacer\" width=\"10\" bgcolor=\"#eee\"", ""},
+		{"hidden-cell", " style=\"display:none\"", "%TOK%"},
+		{"hidden-attr-cell", " hidden", "%TOK%"},
+	}
+}
+
+type govcC07Arrangement struct {
+	name    string
+	special func(part string, i, j, rows, cols int) bool // part = head, body, foot; i, j = row / cell index within the part / row
+}
+
+var govcC07Arrangements = []govcC07Arrangement{
+	{"mid", func(part string, i, j, rows, cols int) bool { return part == "body" && i == 1 && j == cols/2 }},
+	{"first", func(part string, i, j, rows, cols int) bool { return part == "body" && i == 0 && j == 0 }},
+	{"last", func(part string, i, j, rows, cols int) bool { return part == "body" && i == rows-1 && j == cols-1 }},
+	{"head", func(part string, i, j, rows, cols int) bool { return part == "head" && j == 1 }},
+	{"foot", func(part string, i, j, rows, cols int) bool { return part == "foot" && j == 1 }},
+	{"row", func(part string, i, j, rows, cols int) bool { return part == "body" && i == 2 }},
+	{"lastrow", func(part string, i, j, rows, cols int) bool { return part == "body" && i == rows-1 }},
+	{"col", func(part string, i, j, rows, cols int) bool { return part != "head" && j == 1 }},
+	{"sparse", func(part string, i, j, rows, cols int) bool { return part == "body" && j > 0 && !(i == 0 && j == 1) }},
+	{"checker", func(part string, i, j, rows, cols int) bool { return part == "body" && (i+j)%2 == 1 }},
+}
+
+// govcC07CellTable builds a data table (caption and header cells) of 4 body rows x 4 columns in which the cells
+// selected by `special` have the given shape; all other cells hold one unique token. It returns the visible
+// tokens (those of the hidden content of the special cells are not among them).
+func govcC07CellTable(structure string, special func(part string, i, j, rows, cols int) bool, sh govcC07CellShape) (string, []string) {
+	const rows, cols = 4, 4
+	n := 0
+	var tokens []string
+	tok := func() string {
+		s := fmt.Sprintf("tc%03dz", n)
+		n++
+		tokens = append(tokens, s)
+		return s
+	}
+	cell := func(tag, attr, part string, i, j int) string {
+		if special(part, i, j, rows, cols) {
+			content := sh.content
+			if strings.Contains(content, "%TOK%") {
+				content = strings.Replace(content, "%TOK%", fmt.Sprintf("hid%03dz", n), 1)
+				n++
+			}
+			return "<" + tag + attr + sh.cellAttr + ">" + content + "</" + tag + ">"
+		}
+		return "<" + tag + attr + ">" + tok() + "</" + tag + ">"
+	}
+	var sb strings.Builder
+	sb.WriteString("<table><caption>" + tok() + " " + tok() + "</caption>")
+	head := func() {
+		sb.WriteString("<tr>")
+		for j := 0; j < cols; j++ {
+			sb.WriteString(cell("th", "", "head", 0, j))
+		}
+		sb.WriteString("</tr>")
+	}
+	switch structure {
+	case "sections":
+		sb.WriteString("<thead>")
+		head()
+		sb.WriteString("</thead><tbody>")
+		for i := 0; i < rows; i++ {
+			sb.WriteString("<tr>")
+			for j := 0; j < cols; j++ {
+				sb.WriteString(cell("td", "", "body", i, j))
+			}
+			sb.WriteString("</tr>")
+		}
+		sb.WriteString("</tbody><tfoot><tr>")
+		for j := 0; j < cols; j++ {
+			sb.WriteString(cell("td", "", "foot", 0, j))
+		}
+		sb.WriteString("</tr></tfoot>")
+	case "flat", "rowhead":
+		head()
+		for i := 0; i <= rows; i++ { // the row after the body rows is the footer row
+			part, k := "body", i
+			if i == rows {
+				part, k = "foot", 0
+			}
+			sb.WriteString("<tr>")
+			for j := 0; j < cols; j++ {
+				if structure == "rowhead" && j == 0 {
+					sb.WriteString(cell("th", " scope=\"row\"", part, k, j))
+				} else {
+					sb.WriteString(cell("td", "", part, k, j))
+				}
+			}
+			sb.WriteString("</tr>")
+		}
+	case "spans":
+		sb.WriteString("<thead>")
+		head()
+		sb.WriteString("</thead><tbody>")
+		// row 0: first cell spans two rows; row 1 has one cell less; row 3: the second cell spans the rest
+		for i := 0; i < rows; i++ {
+			sb.WriteString("<tr>")
+			for j := 0; j < cols; j++ {
+				attr := ""
+				switch {
+				case i == 0 && j == 0:
+					attr = " rowspan=\"2\""
+				case i == 1 && j == cols-1:
+					continue
+				case i == 3 && j == 1:
+					attr = fmt.Sprintf(" colspan=\"%d\"", cols-1)
+				case i == 3 && j > 1:
+					continue
+				}
+				sb.WriteString(cell("td", attr, "body", i, j))
+			}
+			sb.WriteString("</tr>")
+		}
+		sb.WriteString("</tbody><tfoot><tr>" + cell("td", " colspan=\"2\"", "foot", 0, 0) + cell("td", " colspan=\"2\"", "foot", 0, 1) + "</tr></tfoot>")
+	}
+	sb.WriteString("</table>")
+	return sb.String(), tokens
+}
+
+func govcC07Hidden(n *html.Node) bool {
+	for _, a := range n.Attr {
+		switch a.Key {
+		case "hidden":
+			return true
+		case "aria-hidden":
+			if a.Val == "true" {
+				return true
+			}
+		case "style":
+			v := strings.ToLower(strings.ReplaceAll(a.Val, " ", ""))
+			if strings.Contains(v, "display:none") || strings.Contains(v, "visibility:hidden") {
+				return true
+			}
+		}
+	}
+	return false
+}
+
+// govcC07TableShape describes the table structure below root: the number of elements per table-part tag (all of
+// them / only those that are not hidden and not inside a hidden element), the cells per row and the (row, cell
+// index) position of every word; with visibleOnly, hidden rows and cells are skipped when counting positions.
+type govcC07TableShape struct {
+	all, visible map[string]int
+	rowCells     []int
+	where        map[string][2]int
+}
+
+func govcC07ShapeOf(table *html.Node, visibleOnly bool) govcC07TableShape {
+	sh := govcC07TableShape{all: map[string]int{}, visible: map[string]int{}, where: map[string][2]int{}}
+	row, cellIdx := -1, -1
+	var walk func(x *html.Node, hidden bool)
+	walk = func(x *html.Node, hidden bool) {
+		if x.Type == html.ElementNode {
+			hidden = hidden || govcC07Hidden(x)
+			switch x.Data {
+			case "table", "caption", "thead", "tbody", "tfoot", "tr", "th", "td":
+				sh.all[x.Data]++
+				if !hidden {
+					sh.visible[x.Data]++
+				}
+			}
+			if hidden && visibleOnly {
+				return
+			}
+			switch x.Data {
+			case "tr":
+				row++
+				cellIdx = -1
+				sh.rowCells = append(sh.rowCells, 0)
+			case "td", "th":
+				if row >= 0 {
+					cellIdx++
+					sh.rowCells[row]++
+				}
+			case "caption":
+				cellIdx = -1
+			}
+		}
+		if x.Type == html.TextNode && !(hidden && visibleOnly) {
+			for _, w := range strings.Fields(x.Data) {
+				r := row
+				if cellIdx < 0 {
+					r = -1 // caption or text outside any cell
+				}
+				sh.where[strings.Trim(w, ".,;:()[]\"'")] = [2]int{r, cellIdx}
+			}
+		}
+		for c := x.FirstChild; c != nil; c = c.NextSibling {
+			walk(c, hidden)
+		}
+		if x.Type == html.ElementNode && x.Data == "caption" {
+			cellIdx = -1
+		}
+	}
+	walk(table, false)
+	return sh
+}
+
+// govcC07CompareTables returns the differences (at most one per category, as "category :: message") between the
+// source table and the retained table.
+func govcC07CompareTables(srcTable, outTable *html.Node, tokens []string) []string {
+	var msgs []string
+	want := govcC07ShapeOf(srcTable, true)
+	got := govcC07ShapeOf(outTable, false)
+	for _, tag := range []string{"table", "caption", "thead", "tbody", "tfoot", "tr", "th", "td"} {
+		if got.all[tag] < want.visible[tag] || got.all[tag] > want.all[tag] {
+			msgs = append(msgs, fmt.Sprintf("count-%s :: retained data table has %d <%s> elements in Result.Node, the source table has %d (%d of them not hidden): a retained data table keeps all of its rows and cells", tag, got.all[tag], tag, want.all[tag], want.visible[tag]))
+		}
+	}
+	if len(got.rowCells) == len(want.rowCells) {
+		for i := range want.rowCells {
+			if got.rowCells[i] != want.rowCells[i] {
+				msgs = append(msgs, fmt.Sprintf("row-cells :: row %d of the retained data table has %d cells, the same row of the source table has %d (hidden cells not counted)", i, got.rowCells[i], want.rowCells[i]))
+				break
+			}
+		}
+	}
+	missing, moved := "", ""
+	for _, tk := range tokens {
+		w, ok := want.where[tk]
+		if !ok {
+			continue // a token inside a hidden cell
+		}
+		g, ok := got.where[tk]
+		if !ok {
+			if missing == "" {
+				missing = tk
+			}
+			continue
+		}
+		if g != w && moved == "" {
+			moved = fmt.Sprintf("column :: cell token %q is in row %d, cell %d of the retained data table but in row %d, cell %d of the source table (hidden rows and cells not counted; -1 = caption)", tk, g[0], g[1], w[0], w[1])
+		}
+	}
+	if missing != "" {
+		msgs = append(msgs, fmt.Sprintf("cells :: visible cell token %q of the retained data table is missing in Result.Node", missing))
+	}
+	if moved != "" {
+		msgs = append(msgs, moved)
+	}
+	return msgs
 }
 
 func govcC07Min(a, b int) int {
